@@ -47,8 +47,6 @@ def cases(tier, seed):
                     yield dict(env='ideal' if ground else 'free', f=f, lam=lam, pts=pts, st=st, fine=fine)
     for c in c06.extras(tier, seed):
         for i, ws in enumerate(c['descs']):
-            if tier == 'quick' and i not in (0, 3, 5, 6):
-                continue
             yield dict(env=c['env'], f=c['f'], lam=c['lam'], wires=ws, srcs=c['srcs'], name='%s#%d' % (c['extra'], i), fine=False)
 
 
@@ -120,6 +118,10 @@ def evaluate(c):
             worst, wn = x / tol, sig
         if not (x <= tol):
             viol.append((sig, '%s: %s (%.3g > %.3g)' % (name, msg, x, tol)))
+    # the reference takes the pulse table (point, far ends) from the model: that table itself is checked against the segment
+    # tables of the objects (every pulse on a joint of the two segments it is reported with)
+    for a_, b_ in geom.pulse_geometry_violations(m)[:3]:
+        viol.append((a_, '%s: %s' % (name, b_)))
     pts, base = obs_points(m, lam, ground)
     powers = [None, 1.0, 100.0]
     n = 0
